@@ -28,7 +28,7 @@ COMPONENTS = {"real": ["server runtime stack incl. PersistenceDecorator._on_serv
               "stub": ["llama_index_instrumentation"], "sim": ["loop, clocks, SQLite seam (crash fence at commit granularity), incarnations"]}
 ASSUMPTIONS = ["process crash: only committed SQLite transactions survive; power loss / torn pages out of scope",
                "after the restart the driver sends the finishing event once the new incarnation is quiescent"]
-EXPECTED_PROBES = ["reference-cancelled", "crash-after-persisted-cancel", "crash-with-step-in-progress", "crash-right-after-step_result", "crash-after-last-tick", "restart-resumed-run"]
+EXPECTED_PROBES = ["program-with-waiter-timeout", "reference-cancelled", "crash-after-persisted-cancel", "crash-with-step-in-progress", "crash-right-after-step_result", "crash-after-last-tick", "restart-resumed-run"]
 LEVEL_TEXT = ("Fault enumeration over crash points (every persisted tick of each sampled run in the thorough tier) on top of seeded "
               "sampling of programs and schedules; differential against the uninterrupted run.")
 LEVEL_NOTE = "Trusted: simulator loop, crash fence of the SQLite seam (commit = unit of durability), determinism-by-construction of the programs."
@@ -51,6 +51,13 @@ def gen(tape, cfg):
         if not s.get("retry"):
             s["scripts"] = {k: [a for a in sc if a[0] != "failpath"] for k, sc in s["scripts"].items()}
     spec["steps"] = [s for s in spec["steps"] if s["role"] != "catch"]
+    if tape.chance(25, 100, "c13.wait?"):
+        # a step that waits for an answer nobody sends: its wait_for_event timeout fires, the step handles the TimeoutError and goes on
+        # (restarts are only placed after the last waiter timeout has fired: timers pending at a restart are C14's subject)
+        w0 = next(s for s in spec["steps"] if s["name"] == "w0")
+        w0["scripts"] = {k: [a for a in sc if a[0] == "work"] + [("wait", "Resp0", True, tape.choice([1, 2], "c13.wait.t"), "w", False, "continue")]
+                         + [a for a in sc if a[0] != "work"] for k, sc in w0["scripts"].items()}
+        spec["waits"] = True
     return spec
 
 
@@ -137,6 +144,7 @@ def make_scenario(crash_k):
         out["cancel_arm"] = bool(world._cancel_arm)
         out["n_ticks"] = SEAM.commits.get("ticks", 0)
         out["tick_kinds"] = list(tick_kinds)
+        out["waits"] = bool(spec.get("waits"))
         world.trace.log("quiescent", phase="end")
         return out
     return scenario
@@ -167,7 +175,7 @@ _LAST: dict = {}
 
 def _sim(values, crash_k, explore_tape=None):
     tape = explore_tape if explore_tape is not None else Tape(replay=list(values))
-    res = engine_common.simulate(tape, CFG, lambda w, s, o: _LAST.__setitem__("out", (o, [dict(r[3], kind=r[2], seq=r[0]) for r in w.trace.recs if r[2] in ("enter", "reload-error", "emit", "tick", "crash")])),
+    res = engine_common.simulate(tape, CFG, lambda w, s, o: _LAST.__setitem__("out", (o, [dict(r[3], kind=r[2], seq=r[0]) for r in w.trace.recs if r[2] in ("enter", "reload-error", "emit", "tick", "crash", "runner-start")])),
                                  gen=gen, scenario=make_scenario(crash_k), world_cls=ServerWorld)
     return res, _LAST.pop("out", (None, None))
 
@@ -175,7 +183,7 @@ def _sim(values, crash_k, explore_tape=None):
 def run(tape, thorough=False):
     import os
     thorough = thorough or os.environ.get("VERIF_TIER") == "thorough"
-    res0, (ref, _) = _sim(None, None, explore_tape=tape)
+    res0, (ref, ref_recs) = _sim(None, None, explore_tape=tape)
     values = list(tape.values)
     agg = res0
     agg["evals"] = 1
@@ -183,6 +191,13 @@ def run(tape, thorough=False):
     cancelled_ref = bool(ref and ref.get("cancel_arm") and ref.get("final") and ref["final"][0] == "cancelled" and "TickCancelRun" in ref["tick_kinds"])
     if res0["harness"] or not ref or not ref.get("final") or (ref["final"][0] != "completed" and not cancelled_ref):
         agg["nontrivial_shapes"] = []
+        errs = sorted({e["exc"] + ": " + e["msg"] for e in (ref_recs or []) if e["kind"] == "reload-error"})
+        if not res0["harness"] and ref and errs and not ref.get("cancel_arm"):
+            # not even the UNINTERRUPTED run completes: it was released for idleness and its persisted tick log could not be replayed
+            # when the finishing event arrived
+            agg["probes"]["reference-not-completed"] = agg["probes"].get("reference-not-completed", 0) + 1
+            agg["violations"] = agg["violations"] + [{"rule": "C13.stuck", "cause": {"reference_run": True, "reload_error": errs[0]}, "seq": 0,
+                                                     "msg": f"the uninterrupted run ended {ref.get('final')}: reloading it from its persisted ticks (after an idle release) raised {errs[0]}"}]
         return agg
     if cancelled_ref:
         agg["probes"]["reference-cancelled"] = agg["probes"].get("reference-cancelled", 0) + 1
@@ -204,6 +219,15 @@ def run(tape, thorough=False):
         step = max(1, n // 3)
         pick.update(range(step, n, step))
         ks = sorted(pick)[:8]
+    if ref.get("waits") and not cancelled_ref:
+        agg["probes"]["program-with-waiter-timeout"] = agg["probes"].get("program-with-waiter-timeout", 0) + 1
+        # restarts are placed after the last waiter timeout was persisted (as far as the persisted log shows one) and reach to the end
+        to_idx = [i for i, k in enumerate(kinds) if k.startswith("TickWaiterTimeout")]
+        last_to = (max(to_idx) + 1) if to_idx else 1
+        late = {k for k in range(n - 5, n + 1) if k >= 1}
+        ks = sorted(k for k in (set(ks) | late | {last_to, min(last_to + 1, n), min(last_to + 2, n)}) if k >= last_to)
+        if not thorough:
+            ks = ks[:3] + ks[-7:] if len(ks) > 10 else ks
     for k in ks:
         res, (out, enters) = _sim(values, k)
         agg["evals"] += 1
@@ -244,6 +268,13 @@ def run(tape, thorough=False):
                        and crash_seq and e["seq"] < crash_seq}
         pending_retry = [e for e in failed_ticks if (e["step"], str(e["uid"])) not in redelivered]
         cause = {"unpersisted_followup_work": bool(unprocessed or pending_retry), "reload_error": reload_errors[0] if reload_errors else None}
+        if reload_errors:
+            # root-cause attribute: WHICH replay of the tick log failed. The recorded defect needs a log that already contains the ticks
+            # of a resumed incarnation (the failing reload is a later one); a log that cannot even be replayed by the restart itself
+            # is something else
+            first_err = min(e["seq"] for e in (enters or []) if e["kind"] == "reload-error")
+            resumed_before = any(e["kind"] == "runner-start" and e.get("inc", 1) >= 2 and e["seq"] < first_err for e in (enters or []))
+            cause["failed_reload"] = "later" if resumed_before else "first-after-crash"
         enters = [e for e in (enters or []) if e["kind"] == "enter"]
         reran = [e for e in (enters or []) if e.get("inc") == 2]
         if reran:
